@@ -2,6 +2,19 @@
 """writes MANIFEST.json from the table below (kept in one place so that it stays valid)"""
 import json
 CHECKS = {
+ "C14": dict(
+   text="Proof over Q for every function f (continuous or not), every bracket in either order and every tolerance, about a "
+        "statement-by-statement Lean model of brentsroot and of one lane of brentsrootvec: the returned point is inside the bracket, a "
+        "bracketed sign change stays bracketed (invariant f a * f b <= 0, |f b| <= |f a|), on regular exit the bracket is narrower than the "
+        "tolerance so the point is within tol of a sign change, success implies |f(root)| <= tol, a rejected bracket never claims success; "
+        "lane versions of in-bracket and success soundness. The model is tied to the code by bit-exact float64 replay of the "
+        "implementation's iterate sequences (root bits, flag, every evaluated point). The completeness clause (sign change => success "
+        "whatever the steepness) is false of the code: known findings P14/P14b, with a machine-checked counterexample in Findings/C14.",
+   note="Trusted: Lean kernel, the 3 standard axioms, harness. Theorems are over exact rationals; float rounding inside the solver is covered "
+        "only by the bit-exact replay on generated inputs. Vector solver modelled lane-wise (lanes are independent given the masks); "
+        "vector/scalar agreement is checked on the implementation, not proved.",
+   technique="Lean 4 proof (loop invariants by induction over fuel) + bit-exact Float replay of the implementation's iterates",
+   design="5 (C14)"),
  "C01": dict(
    text="Proof over generated data: the translator re-extracts every coefficient table (exact float64 values as integers over 2^K) "
         "and the declared order from /repo on every run; Lean theorems state, per method, that ALL rooted-tree order conditions "
